@@ -42,8 +42,45 @@ def routes(P):
 
 
 def handler_fns(P, handler):
-    """The handler fn, its coroutine body and every closure nested in it."""
+    """The handler fn, its coroutine body, every closure nested in it, and — transitively — the non-public helper functions of the
+    front-end crate it calls (with their closures): a step shared by two handlers may live in a helper."""
     h = P.fn(handler)
     if h is None:
         return []
-    return [h] + P.closures_of(h)
+    out = []
+    seen = set()
+    work = [h]
+    while work:
+        f = work.pop()
+        if f.path in seen:
+            continue
+        seen.add(f.path)
+        out.append(f)
+        for c in P.closures_of(f):
+            if c.path not in seen:
+                work.append(c)
+        for b, t in f.calls():
+            g = P.fns.get(callee_of(t))
+            if g is not None and g.crate == h.crate and g.kind != "closure" and g.vis != "Public" and g.path not in seen and \
+                    "HttpError" not in g.path:
+                work.append(g)
+    return out
+
+
+def join_mappers(P, crate="searchlite_http", httperr="searchlite_http::HttpError"):
+    """{callee path: index of the `kind` argument} of functions that turn something into a 500 HttpError of a given kind:
+    HttpError::from_anyhow itself (status checked at the call site) and helpers that call it with status 500 and their own parameter
+    as the kind (e.g. a `join_failure(kind, err)` constructor)."""
+    out = {httperr + "::from_anyhow": (0, None)}
+    for q, f in P.fns.items():
+        if f.crate != crate or f.kind == "closure":
+            continue
+        for b, t in f.calls():
+            if callee_of(t) == httperr + "::from_anyhow" and len(t["args"]) >= 2:
+                sl = Slice(f)
+                ks = [x[1] for x in sl.sources(t["args"][0]) if x[0] == "arg"]
+                c = op_const(t["args"][1])
+                st = sl.consts(t["args"][1]) if c is None else [c]
+                if ks and any("INTERNAL_SERVER_ERROR" in (x.get("txt", "") if x else "") or (x or {}).get("int") == 500 for x in st):
+                    out[q] = (ks[0] - 1, 500)
+    return out
